@@ -292,6 +292,22 @@ Exec.loc_of = loc_of
 Exec.havoc_modifies = havoc_modifies
 Exec.havoc_heap = havoc_heap
 Exec.post_frame = post_frame
+
+
+def post_raise_frame(self, env):
+  """an exceptional exit declared in `raises` must leave the heap unchanged (unless the contract sets raise_frame=False)"""
+  if getattr(self.spec, 'raise_frame', True) is False:
+    return
+  saved_m, saved_f = self.spec.modifies, getattr(self.spec, 'frame_except', None)
+  self.spec.modifies, self.spec.frame_except = (), None
+  try:
+    for key, f in self.frame_formulas():
+      self.oblige(f, f'frame-on-raise[{key[0]}.{key[1]}]')
+  finally:
+    self.spec.modifies, self.spec.frame_except = saved_m, saved_f
+
+
+Exec.post_raise_frame = post_raise_frame
 Exec.frame_formulas = frame_formulas
 Exec.init_heap = init_heap
 Exec.monitor_enter = monitor_enter
